@@ -66,13 +66,32 @@ def b(x):
     return "true" if x else "false"
 
 
-def oracle_tables(recs):
+# premises about oracles that theorems of props/C13.v carry, in the order of coq/model/NumContracts.v's contract_verdicts:
+# (name, oracle table its instances are drawn from, statement, theorems that use it)
+CONTRACTS = [
+    ("oc_ParseInt", "ParseInt", "strconv.ParseInt(s, 10, bits) = v, nil  ->  s denotes v  and  v fits in bits bits", "to/from_switches_exact, convertToBigInt_exact (oracle_contract)"),
+    ("oc_FormatInt", "FormatInt", "strconv.FormatInt(v, 10) denotes v", "from_switches_exact (oracle_contract)"),
+    ("oc_BigSetString", "BigSetString", "new(big.Int).SetString(s, 10) = v, true  ->  s denotes v", "convertToBigInt_exact (oracle_contract)"),
+    ("oc_BigText", "BigText", "v.Text(10) denotes v", "convertFromBigInt_exact (oracle_contract)"),
+    ("widen_exact", "f32_to_f64", "float64(w) is the value of the float32 w", "float64ToFloat32_exact/_nan, convertFromFloat64_exact, convertToFloat32_exact"),
+    ("eq_sound", "f64_eqb", "a == b (float64)  ->  a and b are the same value", "float64ToFloat32_exact/_nan, convertFromFloat64_exact, convertToFloat32_exact"),
+    ("isnan_sound", "f64_isnan", "math.IsNaN(b)  <->  b is a NaN (the premise is the -> direction)", "float64ToFloat32_exact/_nan, convertFromFloat64_exact, convertToFloat32_exact"),
+    ("narrow_nan", "f64_isnan", "math.IsNaN(b)  ->  float32(b) is a NaN", "float64ToFloat32_exact/_nan, convertFromFloat64_exact, convertToFloat32_exact"),
+    ("bigfloat_exact", "BigFloat_Float64", "f.Float64() = b, big.Exact  ->  b is the value of f", "bigFloatToFloat64_exact"),
+    ("setfloat_acc", "BigFloat_SetFloat64", "z of precision p, b not NaN: after z.SetFloat64(b), z.Acc() == big.Exact  <->  z holds the value of b",
+     "float64ToBigFloat_exact/_decides, convertFromFloat64_exact"),
+]
+
+
+def oracle_tables(recs, tabrecs=None):
     t = {k: [] for k in ("ParseInt", "FormatInt", "BigSetString", "BigText", "f64_to_f32", "f32_to_f64", "f64_eqb", "f64_isnan",
                          "BigFloat_Float64", "BigFloat_SetFloat64")}
     for r in recs:
         if r["k"] != "o":
             continue
         f = r["fn"]
+        if tabrecs is not None:
+            tabrecs.setdefault(f, []).append(r)
         if f == "ParseInt":
             t[f].append("((%s, %d), %s)" % (gstr(r["s"]), r["bits"], "Some %s" % zlit(r["v"]) if r["ok"] else "None"))
         elif f == "FormatInt" or f == "BigText":
@@ -213,6 +232,36 @@ def build_cases(recs, table):
     return "\n".join(lines) + "\n", groups
 
 
+def check_contracts(recs):
+    """Instantiates every oracle premise of the C13 theorems on all answers the real standard library gave in this run
+    (coq/model/NumContracts.v, evaluated by vm_compute). Returns (report list, broken list)."""
+    tabrecs = {}
+    text = "\n".join([vlib.EVAL_HEADER, "From GCNP Require Import base.GoInt base.GoNum model.NumCases model.NumContracts.",
+                      oracle_tables(recs, tabrecs),
+                      "Definition contracts := Eval vm_compute in contract_verdicts T.", "Print contracts."]) + "\n"
+    rc, out = vlib.coq_eval("Contracts_C13", text)
+    flat = " ".join(out.split())
+    if rc != 0 or "contracts =" not in flat:
+        return [], ["the oracle contracts of the C13 theorems could not be evaluated on the oracle tables: " + flat[-400:]]
+    verdicts = re.findall(r"\((\d+), \[([0-9; ]*)\]\)", flat.split("contracts =", 1)[1])
+    if len(verdicts) != len(CONTRACTS):
+        return [], ["oracle contract evaluation returned %d verdicts for %d premises: %s" % (len(verdicts), len(CONTRACTS), flat[-300:])]
+    report, broken = [], []
+    for (name, table, stmt, used), (n, bad) in zip(CONTRACTS, verdicts):
+        idx = [int(x) for x in bad.split(";") if x.strip()]
+        entry = {"hypothesis": name, "statement": stmt, "used_by": used, "oracle_table": table, "table_entries": len(tabrecs.get(table, [])),
+                 "instances_checked": int(n), "failing": len(idx)}
+        if idx:
+            ex = [{k: v for k, v in tabrecs[table][i].items() if k not in ("k",)} for i in idx[:3] if i < len(tabrecs.get(table, []))]
+            entry["failing_examples"] = ex
+            broken.append("oracle contract %s (%s) fails on %d of %d instance(s) answered by the real library, e.g. on value %s" % (
+                name, stmt, len(idx), int(n), json.dumps(ex[:2])[:400]))
+        elif int(n) == 0:
+            broken.append("oracle contract %s: no instance was checked (the harness asked the library nothing it applies to)" % name)
+        report.append(entry)
+    return report, broken
+
+
 def check(run):
     fails = vlib.standard_prelude(run, UNITS, "num")
     broken = []
@@ -235,6 +284,10 @@ def check(run):
         "contract as hypothesis (oracle_contract; the float premises: widening exact, == sound, IsNaN sound, NaN narrows to NaN, Float64 Exact => same value, "
         "SetFloat64: Acc() = Exact <=> value held = argument)",
         "the rounding mode of a *big.Float destination is not an input of the model (the SetFloat64 contract holds for every mode; the search runs 4 modes)",
+        "every oracle premise is universally quantified; on every run it is instantiated (coq/model/NumContracts.v, vm_compute) on all answers the real library "
+        "gave in that run - boundary, directed and random values, see coverage.oracle_contracts_checked - under the denotations godec (decimal strings) and "
+        "f64_value / f32_value / bf_value (IEEE-754 bit patterns, big.Float mantissa*2^exponent); beyond those finitely many instances the premises remain trusted. "
+        "time.Parse / time.Format (o_TimeParse, o_TimeFormat) carry no premise: no theorem says anything about the string (layout) branches",
         "model of time.Time as the instant (unix seconds, nanoseconds) and of *big.Int as an unbounded integer (coq/base/GoNum.v, GoInt.v)",
         "coq/model/NumWire.v: hand model of writeBigInt/readBigInt, compared with the compiled functions on every run; proved equal to coq/model/CqlWire.v's model, whose varint theorems (proofs/CqlVarintProofs.v, cql area) C13_varint_roundtrip imports",
         "platform: strconv.IntSize = 64",
@@ -259,6 +312,22 @@ def check(run):
             broken.append("harness cannot reach %s: datacodec/verif_hooks.go does not export it" % r["name"])
     # helpers of conversions.go that the table does not cover would escape the theorem: every function of the file must be translated
     summ = next((r for r in recs if r["k"] == "sum"), None)
+
+    # ---- (0) the premises about the standard library that the theorems carry, instantiated on everything the real library answered
+    contract_report = []
+    if recs:
+        with vlib.Lock():
+            ok_c, log = vlib.coq_make(["model/NumCases.vo", "model/NumContracts.vo"])
+        if not ok_c:
+            broken.append("model/NumContracts.v does not compile: " + " ".join(l for l in log.split("\n") if "Error" in l)[:400])
+        else:
+            contract_report, cbroken = check_contracts(recs)
+            broken += cbroken
+    run.coverage["oracle_contracts_checked"] = contract_report
+    if contract_report:
+        run.note("oracle contracts instantiated on the real library's answers: " + ", ".join(
+            "%s %d" % (c["hypothesis"], c["instances_checked"]) for c in contract_report) +
+            "; failing: %d" % sum(c["failing"] for c in contract_report))
 
     # ---- (a) correspondence: regenerated Gallina functions (and the hand model of the varint bytes) vs the compiled code
     corr = 0
